@@ -16,3 +16,14 @@ OBLIGATIONS = [
         desc="input side: io_read never reports end of input unless read() returned 0 (short counts/EINTR/EAGAIN are retried), so the decoder sees every byte of the file",
         bounds_q="<= 2 try-again outcomes per run"),
 ]
+CSTUB = ["liblzma entry points used by coder.c = recording stubs (init functions record the chosen decoder; lzma_code consumes/produces arbitrary amounts and returns OK/STREAM_END/DATA_ERROR/UNSUPPORTED_CHECK/BUF_ERROR, at most 4 calls); io_read/io_write/io_fix_src_pos, message_*, hardware_* = stubs with arbitrary results; option globals symbolic under args.c's constraints"]
+OBLIGATIONS += [
+    Obligation(name="coder_init_per_file_state", src="xzcoder.c", func="harness_coder_init", lib="xz", qdefs=["SMALL_IOBUF"], unwind=18, flags=["--object-bits", "10"], stubs=CSTUB, timeout_q=280,
+        functions=["coder_init", "is_format_xz", "is_format_lzma", "is_format_lzip"],
+        desc="coder_init for ANY leftover state of the previous file in the same xz run, any mode/format/flags and any first 16 input bytes: trailing input is tolerated exactly for --single-stream and .lz files (so a .lzma file followed by garbage is an error whatever was processed before); pass-through only with -dcf",
+        bounds_q="first 16 input bytes symbolic"),
+    Obligation(name="coder_normal_outcome", src="xzcoder.c", func="harness_coder_normal", lib="xz", defs=["SMALL_IOBUF"], unwind=8, flags=["--object-bits", "10"], stubs=CSTUB, timeout_q=280,
+        functions=["coder_normal", "coder_write_output"],
+        desc="decoding loop with an arbitrary library: success only after STREAM_END with every write successful; after end of stream or an error the library is not called again (nothing after an error); all output produced before that point is handed to io_write (everything decodable before an error); without the trailing-input allowance success requires no unread input and end of file, with it unread bytes are given back",
+        bounds_q="<= 4 lzma_code calls, <= 3 reads; 1032-byte I/O buffers"),
+]
